@@ -222,6 +222,39 @@ def check_to_analysed(fx, rep):
         rep.ok('R3-analysis-keeps-bytes', 'to_analysed', 'original_len = raw.len(); buffer = raw bytes + zero padding (padding decided in C04 R4)')
     else:
         rep.violation('R3-analysis-keeps-bytes', 'to_analysed', 'to_analysed does not keep the raw bytes and their length (original_len ok=%s, copy of raw bytes ok=%s)' % (ok_len, ok_copy), f.where())
+    # every raw input goes through that one construction (a shortcut result for particular byte
+    # strings reports other original bytes); only the empty input may answer with Bytecode::new(),
+    # which is the analysed form of empty code
+    try:
+        rs = Symx(fx, max_paths=2000).run(f)
+    except Exception as e:            # Budget
+        rs = None
+        rep.undecided('R3-analysis-keeps-bytes', 'raw-paths', 'path budget (%s)' % e, f.where())
+    if rs is not None:
+        raw_discr = fx.discr_of(B, 'LegacyRaw')
+        bad = None
+        n_raw = 0
+        for r in rs:
+            lits = [(render(l[0]), l[1]) for l in r.lits]
+            if ('discr(arg1)', ('eq', raw_discr)) not in lits:
+                continue
+            n_raw += 1
+            ret = r.ret
+            regular = ret[0] == 'agg' and ret[2] == 'LegacyAnalyzed' and ret[4] and ret[4][0][0] == 'call' and ret[4][0][1].endswith('LegacyAnalyzedBytecode::new')
+            if regular:
+                continue
+            empty = any((t.startswith('Eq(PtrMetadata(') and t.endswith(', 0)') and lit[0] == 'ne') or
+                        (t.startswith('is_empty(') and lit[0] == 'ne') for t, lit in lits)
+            if empty and ret[0] == 'call' and ret[1].endswith('Bytecode::new') and not ret[2]:
+                continue
+            bad = 'a raw input is answered with %s instead of the analysed copy of its own bytes [%s]' % (render(ret)[:60], '; '.join('%s %s' % (t[:40], l) for t, l in lits[1:4]))
+            break
+        if n_raw == 0:
+            rep.undecided('R3-analysis-keeps-bytes', 'raw-paths', 'no path for the LegacyRaw variant', f.where())
+        elif bad:
+            rep.violation('R3-analysis-keeps-bytes', 'raw-paths', 'to_analysed: ' + bad, f.where())
+        else:
+            rep.ok('R3-analysis-keeps-bytes', 'raw-paths', '%d paths, all through LegacyAnalyzedBytecode::new(buffer, raw.len(), jump table)' % n_raw)
     # other variants returned unchanged
     tb = match_table(fx, f, B)
     bad = [v for v in ('LegacyAnalyzed', 'Eof', 'Eip7702') if tb.get(v) is None or tb[v][0] != 'agg' or tb[v][2] != v]
